@@ -198,6 +198,11 @@ def extent_equivariance(chk, repo, clause):
         equivariant(chk, clause, repo, f'propagate.{fn}', None, pairs=[xs], quads=[bq], inline=extent_inline(repo))
 
 
+def _same_items(a, b):
+    """equal as sequences of numbers, whether written as a tuple or as a small array"""
+    return isinstance(a, Tup) and isinstance(b, Tup) and len(a) == len(b) and all(x == y for x, y in zip(a.items, b.items))
+
+
 def mask_window_identities(chk, repo, clause):
     """_mask_shape = extent lengths; _mask_shift = array_center(boundary) - floor(shape/2)."""
     f, p = one_path(repo, 'propagate._mask_shape', inline=extent_inline(repo))
@@ -210,7 +215,7 @@ def mask_window_identities(chk, repo, clause):
     else:
         bq = [nf.index(calls[0].result, C(i)) for i in range(4)]
         chk.ob(clause, 'N-identity', 'propagate._mask_shape', 'bounding-box lengths',
-               p.ret == Tup([bq[1] - bq[0] + 1, bq[3] - bq[2] + 1]), f'returns {fmt(p.ret)}', f.loc(p.node))
+               _same_items(p.ret, Tup([bq[1] - bq[0] + 1, bq[3] - bq[2] + 1])), f'returns {fmt(p.ret)}', f.loc(p.node))
     f, p = one_path(repo, 'propagate._mask_shift', inline=extent_inline(repo))
     calls = p.calls('util.boundary')
     if not calls:
@@ -222,4 +227,4 @@ def mask_window_identities(chk, repo, clause):
     want = Tup([bq[0] + HALF(bq[1] - bq[0] + 1) - HALF(nf.index(xs, C(0))),
                 bq[2] + HALF(bq[3] - bq[2] + 1) - HALF(nf.index(xs, C(1)))])
     chk.ob(clause, 'N-identity', 'propagate._mask_shift', 'centre of the bounding box relative to floor(n/2)',
-           p.ret == want, f'returns {fmt(p.ret)}; expected {fmt(want)}', f.loc(p.node))
+           _same_items(p.ret, want), f'returns {fmt(p.ret)}; expected {fmt(want)}', f.loc(p.node))
